@@ -1,5 +1,6 @@
 import GoaktVerif.Model.C15
 import GoaktVerif.Spec.C15
+import GoaktVerif.Lemmas.C15Final
 
 /-
 C15 — "Every Ask (PID.Ask, the package-level Ask, SendSync, ReceiveContext.Ask, BatchAsk) returns either the
@@ -86,5 +87,49 @@ theorem C15_refuted_ownReply :
   have := h crossProgs C15_cross_witness.1 crossActs
   rw [C15_cross_witness.2.1] at this
   cases this
+
+/-! ### the repaired protocol (`Mode.fixed`, fixes/C15-ask-no-late-store.diff): own reply, for every schedule
+
+After its select the caller does not touch the receive context; the response channel is pooled only when the
+reply has arrived.  Both pools stay in use.  Invariant `FInv` (Lemmas/C15Basic.lean): linear ownership of receive
+contexts (pool / unbuilt caller / mailbox / sentinel), a pooled channel is empty and referenced by no pending
+request, a buffered value carries the id of the request the channel was handed out for. -/
+
+theorem ownReply_of_finv {c : Cfg} {own} (h : FInv c own) : ownReply c = true := by
+  unfold ownReply
+  rw [List.all_eq_true]
+  intro t ht
+  obtain ⟨tid, hlt, he⟩ := List.mem_iff_getElem.mp ht
+  have hget : c.threads[tid]? = some t := by rw [List.getElem?_eq_getElem hlt, he]
+  have hh := (h.thr tid t hget).2
+  rw [List.all_eq_true]
+  intro x hx
+  obtain ⟨op, r⟩ := x
+  cases op with
+  | handle => rfl
+  | ask k =>
+    cases r with
+    | reply v => simp only [beq_iff_eq]; exact hh k v hx
+    | timeout => rfl
+    | handled k' => rfl
+    | empty => rfl
+
+theorem C15_fixed_ownReply :
+    ∀ progs, wf progs = true → ∀ acts : List Act, ownReply (runActs (init .fixed progs) acts) = true := by
+  intro progs hwf acts
+  have hcnt : (progs.filter hasH).length ≤ 1 := by
+    simp only [wf, Bool.and_eq_true, decide_eq_true_eq] at hwf
+    exact hwf.2
+  obtain ⟨own0, h0⟩ := finv_init progs hcnt
+  obtain ⟨own1, h1⟩ := finv_runActs acts _ own0 h0
+  exact ownReply_of_finv h1
+
+/-- the two refutation schedules are harmless on the repaired protocol (tests of the model, not theorems about all
+schedules): no reply is lost, no reply is cross-delivered -/
+example : noLoss (runActs (init .fixed lossProgs)
+    [.run 0, .run 1, .run 2, .run 2, .run 2, .run 0, .run 2, .run 2, .run 2, .run 1, .run 1,
+     .run 2, .run 2, .run 2, .run 1, .run 1, .run 2, .run 2, .run 2, .run 1]) = true := by decide
+
+example : ownReply (runActs (init .fixed crossProgs) crossActs) = true := by decide
 
 end GoaktVerif.C15
